@@ -310,13 +310,198 @@ impl SubCheckT for Smooth {
     }
 }
 
+// ---------------------------------------------------------------------------
+// smoothing over 17..40 variables: a function of 2..6 variables scattered over the levels of a larger order
+// ---------------------------------------------------------------------------
+
+#[derive(Clone, Debug, Serialize, Deserialize)]
+pub struct WideCase {
+    pub total: u8,
+    pub k: u8,
+    pub bits: u64,
+    pub seed: u64,
+    pub ns_sel: u8,
+}
+
+pub struct SmoothWide;
+
+/// labels tested along the path of an assignment, and the value reached
+fn path_of(p: BddPtr, asg: &[bool]) -> (Vec<usize>, bool) {
+    let mut cur = p;
+    let mut flip = false;
+    let mut seen = Vec::new();
+    loop {
+        match cur {
+            BddPtr::PtrTrue => return (seen, !flip),
+            BddPtr::PtrFalse => return (seen, flip),
+            BddPtr::Reg(n) => {
+                seen.push(n.var.value_usize());
+                cur = if asg[n.var.value_usize()] { n.high } else { n.low };
+            }
+            BddPtr::Compl(n) => {
+                flip = !flip;
+                seen.push(n.var.value_usize());
+                cur = if asg[n.var.value_usize()] { n.high } else { n.low };
+            }
+        }
+    }
+}
+
+pub fn run_wide(case: &WideCase, st: &mut Stats) -> CaseResult {
+    use rsdd::builder::cache::AllIteTable;
+    use rsdd::repr::VarOrder;
+    let total = (case.total as usize).clamp(9, 20);
+    let k = (case.k as usize).clamp(2, 8);
+    let order = crate::big::permutation(case.seed, total); // level -> label
+    let mut level_of = vec![0usize; total];
+    for (lv, l) in order.iter().enumerate() {
+        level_of[*l] = lv;
+    }
+    let mut labels: Vec<usize> = crate::big::permutation(case.seed ^ 0xE55, total).into_iter().take(k).collect();
+    labels.sort_unstable();
+    // g over oracle variables 0..k
+    let mut g = crate::tt::Tt([case.bits, splitmix(case.bits), splitmix(case.bits ^ 1), splitmix(case.bits ^ 2)]);
+    for v in k..crate::tt::NV {
+        g = g.cofactor(v, false);
+    }
+    let b = RobddBuilder::<AllIteTable<BddPtr>>::new(VarOrder::new(&order.iter().map(|l| VarLabel::new_usize(*l)).collect::<Vec<_>>()));
+    let f = crate::semi::bdd_from_tt_labels(&b, g, &labels);
+    // the input as it is: value on the k variables read back by walking (C01's concern otherwise)
+    let gval = |asg: &[bool]| -> bool {
+        let a = labels.iter().enumerate().fold(0usize, |m, (i, l)| if asg[*l] { m | 1 << i } else { m });
+        g.get(a)
+    };
+    let lo = bdd_nodes(f).iter().map(|nd| level_of[nd.var.value_usize()] + 1).max().unwrap_or(0);
+    let essential: Vec<usize> = bdd_nodes(f).iter().map(|nd| nd.var.value_usize()).collect::<std::collections::BTreeSet<_>>().into_iter().collect();
+    // the library's smooth() rebuilds the diagram below a don't-care node once for each of its two edges: its running
+    // time doubles with every variable the function does not depend on. Prefixes with more than 13 such variables
+    // are out of a run's budget (time is never a verdict): the prefix is shortened, or the case is left out
+    let mut ns = lo + (((case.ns_sel as usize) * (total - lo + 1)) >> 8);
+    ns = ns.min(essential.len() + 13).max(lo);
+    if ns - essential.len() > 13 {
+        st.bump("wide.left_out(more than 13 don't-care levels: exponential running time of smooth)");
+        return Ok(());
+    }
+    let want_path: Vec<usize> = order[..ns].to_vec();
+    let s1 = b.smooth(f, ns);
+    let s2 = b.smooth(s1, ns);
+    for (what, s) in [("smooth(f, n)", s1), ("smooth(smooth(f, n), n)", s2)] {
+        for j in 0..64u64 {
+            let mut asg = crate::big::assignment(case.seed ^ 0x5A00, j, total);
+            if j % 4 == 0 {
+                // half of the probes follow one polarity on the non-essential variables, so that long runs of
+                // don't-care nodes are crossed on the same side
+                for (l, x) in asg.iter_mut().enumerate() {
+                    if !essential.contains(&l) {
+                        *x = j % 8 == 0;
+                    }
+                }
+            }
+            let (seen, val) = path_of(s, &asg);
+            ensure!(val == gval(&asg), "C08/function-changed", "{} over {} of {} variables evaluates to {} on an assignment where f is {}", what, ns, total, val, gval(&asg));
+            ensure!(
+                seen == want_path,
+                "C08/path-does-not-test-each-variable-once-in-order",
+                "{} over the first {} of {} variables: a path tests {:?}; every path must test {:?} (f depends on {:?})",
+                what,
+                ns,
+                total,
+                seen,
+                want_path,
+                essential
+            );
+        }
+        // counts: finite field with arbitrary residues, and unit weights
+        let wf = |l: usize, bit: bool| -> u128 { splitmix(case.seed ^ 0xFF ^ ((l as u64) << 9) ^ bit as u64) as u128 % P };
+        let mut ffp = WmcParams::<FiniteField<P>>::default();
+        let mut ones = WmcParams::<RealSemiring>::default();
+        for l in 0..total {
+            ffp.set_weight(VarLabel::new_usize(l), FiniteField::new(wf(l, false)), FiniteField::new(wf(l, true)));
+            ones.set_weight(VarLabel::new_usize(l), RealSemiring(1.0), RealSemiring(1.0));
+        }
+        let mut inner = 0u128;
+        let mut models = 0u64;
+        for a in 0..(1usize << k) {
+            if g.get(a) {
+                models += 1;
+                let mut pr = 1u128;
+                for (i, l) in labels.iter().enumerate() {
+                    pr = mulmod(pr, wf(*l, (a >> i) & 1 == 1), P);
+                }
+                inner = (inner + pr) % P;
+            }
+        }
+        // the k generating variables all lie in the first ns levels only if f depends on them; those it does not depend
+        // on and that lie in the prefix are don't-care variables like any other: sum both polarities
+        let mut want = 0u128;
+        let in_prefix = |l: usize| level_of[l] < ns;
+        // exact: enumerate the assignments of the k generating variables, multiply the weights of those in the prefix,
+        // and the (low + high) of every other prefix variable
+        let mut others = 1u128;
+        for l in order[..ns].iter() {
+            if !labels.contains(l) {
+                others = mulmod(others, (wf(*l, false) + wf(*l, true)) % P, P);
+            }
+        }
+        let outside: Vec<usize> = labels.iter().copied().filter(|l| !in_prefix(*l)).collect();
+        let mut count_models_prefix = 0u64;
+        for a in 0..(1usize << k) {
+            if !g.get(a) {
+                continue;
+            }
+            // generating variables outside the prefix are ones f does not depend on: count each prefix assignment once
+            if labels.iter().enumerate().any(|(i, l)| outside.contains(l) && (a >> i) & 1 == 1) {
+                continue;
+            }
+            count_models_prefix += 1;
+            let mut pr = 1u128;
+            for (i, l) in labels.iter().enumerate() {
+                if in_prefix(*l) {
+                    pr = mulmod(pr, wf(*l, (a >> i) & 1 == 1), P);
+                }
+            }
+            want = (want + pr) % P;
+        }
+        let _ = (inner, models);
+        want = mulmod(want, others, P);
+        let got = s.unsmoothed_wmc(&ffp).value();
+        ensure!(got == want, "C08/weighted-count-finite-field", "{} over the first {} of {} variables counts {} in GF(P64); the sum over models gives {}", what, ns, total, got, want);
+        let unit = s.unsmoothed_wmc(&ones).0;
+        let want_unit = count_models_prefix as f64 * (2f64).powi((ns - labels.iter().filter(|l| in_prefix(**l)).count()) as i32);
+        ensure!(unit == want_unit, "C08/unweighted-count", "{} over the first {} of {} variables counts {} models under unit weights; the function has {}", what, ns, total, unit, want_unit);
+    }
+    st.flag(if total > 16 { "wide.total.17-20" } else { "wide.total.9-16" }, true);
+    st.flag("wide.ns_above_16", ns > 16);
+    if ns > 16 && essential.len() >= 2 {
+        st.mark_nontrivial();
+    }
+    Ok(())
+}
+
+impl SubCheckT for SmoothWide {
+    type Case = WideCase;
+    const NAME: &'static str = "smooth_many_variables";
+    const RULE: &'static str = "a function of 2..8 variables scattered over the levels of a pseudo-random order of 9..20 variables (prefixes with at most 13 variables the function does not depend on: the library's smooth() doubles its work with each of them), smoothed over a prefix that reaches at least its deepest variable (and smoothed once more): on 64 assignments the path tests exactly the order prefix, in order, and ends in f's value; the finite-field count under arbitrary residues equals the sum over f's models times (low + high) of every other prefix variable, the unit-weight count equals the number of models over the prefix. Non-trivial: a prefix of more than 16 variables";
+    fn cases(tier: Tier) -> u32 {
+        tier.pick(600, 12_000)
+    }
+    fn strategy(_tier: Tier) -> BoxedStrategy<WideCase> {
+        (prop_oneof![1 => 9u8..=16, 3 => 17u8..=20], prop_oneof![1 => 2u8..=5, 3 => 6u8..=8], any::<u64>(), any::<u64>(), prop_oneof![1 => any::<u8>(), 1 => 200u8..=255])
+            .prop_map(|(total, k, bits, seed, ns_sel)| WideCase { total, k, bits, seed, ns_sel })
+            .boxed()
+    }
+    fn run(case: &WideCase, st: &mut Stats) -> CaseResult {
+        run_wide(case, st)
+    }
+}
+
 pub fn property() -> Property {
     Property {
         id: "C08",
-        subs: vec![sub::<Smooth>()],
+        subs: vec![sub::<Smooth>(), sub::<SmoothWide>()],
         fuzz: vec![],
         assumptions: vec![
-            "the smoothed BDD only mentions variables among the first n_s levels (the documented precondition); n_s <= 8",
+            "the smoothed BDD only mentions variables among the first n_s levels (the documented precondition); exhaustive path and count oracles for n_s <= 8, sampled paths and closed-form counts up to 20 variables (at most 13 don't-care levels: smooth() is exponential in their number)",
             "integer weights so that f64 results are exact and compared with ==",
         ],
         nt_floor_percent: 20,
